@@ -101,8 +101,15 @@ func loadProg(root, tags string, env []string) (*Prog, error) {
 	}
 	all := ssautil.AllFunctions(prog)
 	p.CG = vta.CallGraph(all, cha.CallGraph(prog))
+	if p.Inl != nil {
+		for fn := range p.Inl.dead {
+			if n := p.CG.Nodes[fn]; n != nil {
+				p.CG.DeleteNode(n)
+			}
+		}
+	}
 	for fn := range all {
-		if p.Inl != nil && (p.Inl.dead[fn] || p.Inl.dead[topLevelRaw(fn)] && fn.Parent() != nil && false) {
+		if p.Inl != nil && p.Inl.isDead(fn) {
 			continue
 		}
 		if fn.Pkg == p.Lime || fn.Pkg == p.Chat {
